@@ -145,4 +145,9 @@ def check(ctx, world):
                             if fv == own_out and k in ro.state.heap[ro.value.oid]:
                                 own2 = ro.state.heap[ro.value.oid][k]
                         ctx.require(own2 is not None, "%s: restored instance has no field holding its outbound message" % cname)
+                        same = session.norm_codec(own2) == session.norm_codec(own_out)
+                        ctx.ob("S5", "%s[restored]" % cname, same,
+                               "the restored instance compares against the message that was originally sent" if same else
+                               "the restored instance's outbound message %s differs from the one originally sent: reflection of the real message goes undetected"
+                               % show(own2, maxdepth=4))
                         reflection(ctx, ev, cname, ro.value, ro.state, "restored", payload, own2)
